@@ -7,7 +7,7 @@ import impl
 from pyubx2 import UBXReader
 from pyubx2 import exceptions as ube
 
-PROPFILES = ["props/C05.v"]
+PROPFILES = ["props/C05.v", "props/C05_src.v"]
 RULE = ("FRONT <validate> <hex>: UBXReader.parse up to the constructor call, model vs implementation, on "
         "valid frames, every single-byte substitution, insertions, deletions, truncations, bursts, all strings "
         "over a frame alphabet up to a length bound, random bytes; non-trivial = distinct (input, outcome) whose "
